@@ -27,6 +27,20 @@ COMMON_ASSUMPTIONS = [
 LEVEL_TEXT = ("Bounded symbolic model checking of the real Go code: each harness executes the implementation's SSA symbolically; "
               "every assertion is decided by z3 for all values of the symbolic inputs/pre-state within the stated bounds; "
               "counterexamples are replayed natively before being reported.")
+COMMON_BOUNDS = {
+    "quick": ("every harness named Verif<ID>_* (evidence.coverage.harnesses lists them), including the families aliased from other "
+              "properties in harness/zz_aliases.go; world shapes with the six component IDs at 60..65, a populated zero-target table, a "
+              "populated {A,B,P} table, 2 (plain) / 5 (relation) standing registered filters; ONE operation after the shape unless the "
+              "harness name says otherwise; matrices enumerate every listed combination; symbolic: all component values, filter masks "
+              "(3 x 256 bit), relation target handles (id and generation), observer masks and flags, clock instants and time limits, "
+              "codec inputs; per-query solver timeout 30 s, wall budget 10 min, loops unrolled to 600 visits"),
+    "thorough": ("the quick harnesses run with the component IDs at 60..65 AND at 0..5, 124..129, 188..193, 248..253 (every mask word and "
+                 "word boundary), plus the Verif<ID>T_* harnesses at one placement: two-operation histories over all 13 operations and "
+                 "three-operation histories over 6 (choices narrowed to the first 3 / 2 alternatives), all shape variants, 3 observers per "
+                 "dispatcher, 4-step query interleavings, filter life cycles of 4 steps, registry at its maximum; per-query solver "
+                 "timeout 300 s, wall budget 45 min"),
+}
+
 LEVEL_NOTE = ("Trusted: go/ssa, the engine's SSA-to-SMT translation and stubs (listed in evidence.coverage.stubs; validated each run by replaying "
               "solver models of reached harness ends natively), z3. Inductive-step harnesses assume their stated invariant characterises reachable states.")
 
